@@ -301,7 +301,7 @@ class CodeGenerator(nunavut._generators.AbstractGenerator):
                 newline_chars = part[match_obj.start() : match_obj.end()]
                 line = line_buffer.getvalue()  # type: str
                 line_buffer = io.StringIO()
-                cls._filter_and_write_line((line, newline_chars), output_file, line_pps)
+                cls._filter_and_write_line(_rejoin_split_crlf(line, newline_chars), output_file, line_pps)
                 search_pos = match_obj.end()
                 match_obj = newline_pattern.search(part, search_pos)
         remainder = line_buffer.getvalue()
@@ -1004,3 +1004,11 @@ class SupportGenerator(CodeGenerator):
                         resource_line_tuple = line_pp(resource_line_tuple)
                     target_file.write(resource_line_tuple[0])
                     target_file.write(resource_line_tuple[1])
+
+
+def _rejoin_split_crlf(line: str, newline_chars: str) -> typing.Tuple[str, str]:
+    # The template engine may emit the two characters of a "\r\n" terminator in different parts. The "\r" is then
+    # the last buffered character when the "\n" is found. (Defined down here to keep doctest line numbers stable.)
+    if newline_chars == "\n" and line.endswith("\r"):
+        return (line[:-1], "\r\n")
+    return (line, newline_chars)
